@@ -1339,14 +1339,9 @@ def _su2_parameters(U, tol=1e-10):
             "Input matrix must have determinant 1 to be decomposed into SU(2) parameters."
         )
 
-    # Sometimes the absolute value of the matrix entry is very, very close to
-    # 1 and slightly above, when it should be 1 exactly. Isolate these cases
-    # to prevent us from getting NaN.
-    b = None
-    if np.isclose(np.absolute(U[0, 1]), 1, atol=tol, rtol=0):
-        b = 2 * np.arcsin(1)
-    else:
-        b = 2 * np.arcsin(np.absolute(U[0, 1]))
+    # sin(b/2) = |U[0, 1]| and cos(b/2) = |U[0, 0]|: arctan2 is accurate over the whole range
+    # and cannot return NaN when a modulus is slightly above 1.
+    b = 2 * np.arctan2(np.absolute(U[0, 1]), np.absolute(U[0, 0]))
 
     arg_pos = np.angle(U[0, 0])  # (a + g)/2
     arg_neg = -np.angle(U[1, 0])  # (a - g)/2
@@ -1403,15 +1398,19 @@ def _su3_parameters(U):
     # Grab the entries of the first row
     x, y, z = U[0, 0], U[1, 0], U[2, 0]
 
+    # The special cases below discard y and z, so they are decided on the size of y and z
+    # (|x| is within 1e-12 of 1 already when |y|, |z| are of order 1e-6).
+    rest_is_zero = np.absolute(y) <= 1e-12 and np.absolute(z) <= 1e-12
+
     # Special case: if the top left element is 1, then we essentially
     # already have an SU(2) transformation embedded in an SU(3) transform,
     # so all we need to do is get the parameters of that SU(2) transform.
-    if np.isclose(x, 1, rtol=1e-12, atol=1e-12):
+    if rest_is_zero and np.isclose(x, 1, rtol=1e-12, atol=1e-12):
         params = [[0.0, 0.0, 0.0], [0.0, 0.0, 0.0], _su2_parameters(U[1:, 1:])]
     # Another special case: the modulus of the top left element is 1.
     # Then we need to do a transformation on modes 1 and 2 to make the top
     # entry 1, then an SU(2) transformation on modes 2 and 3 with what's left.
-    elif np.isclose(np.abs(x), 1, rtol=1e-12, atol=1e-12):
+    elif rest_is_zero:
         # Compute the required phase matrix and embed into SU(3)
         phase_su2 = np.array([[np.conj(x), 0], [0, x]])
 
